@@ -33,6 +33,8 @@ ODD_LINES = [
     'DATA {p} {s} SHA1 zz', 'EBUILD {p} {s} __size__ 5', 'DATA {p} {s} MD5 00 MD5 11', 'AUX {p} {s}', 'DIST {p} 1 SHA1 00',
     'IGNORE {d}\nIGNORE {d}', 'IGNORE dup-ignore\nIGNORE dup-ignore', 'IGNORE {p}\nIGNORE {p}',     # the same IGNORE twice (one of them is removed by de-duplication)
     'IGNORE {h}', 'IGNORE {h}', 'DATA {h}/x 0',                               # a hidden directory that is IGNOREd as well / has entries
+    # hash names that hashlib knows but GLEP 74 does not (also ones whose hexdigest() needs an argument), for a file of the recorded size
+    'DATA {p} {z} SHAKE_128 00', 'DATA {p} {z} shake_256 00', 'MISC {p} {z} SHA384 00 MD5 00', 'DATA {p} {z} sha1 00', 'DATA {p} {z} SM3 00', 'DATA {p} {z} BLAKE2b 00',
     '@IGNORE-MANIFEST', '@IGNORE-MANIFEST', '@IGNORE-MANIFEST-TOO',       # a sub-Manifest file that is IGNOREd (instead of / besides being registered)
 ]
 
@@ -64,7 +66,9 @@ def add_odd_lines(r, c):
             d = r.choice(dirs)
             rel = lambda x: os.path.relpath(x, md) if md else x
             hidden = [x for x in c.meta['dirs'] if x and os.path.basename(x).startswith('.') and (not md or x.startswith(md + '/'))] or ['.nohidden']
-            line = r.choice(ODD_LINES).format(p=ET.impl.encode_path(rel(f)), d=ET.impl.encode_path(rel(d)), s=r.choice(['0', '1', '6']),
+            fi = t.lookup(f)
+            z = str(len(t.nodes[fi]['data'])) if fi is not None and t.nodes[fi]['k'] == 'f' else '0'
+            line = r.choice(ODD_LINES).format(p=ET.impl.encode_path(rel(f)), d=ET.impl.encode_path(rel(d)), s=r.choice(['0', '1', '6']), z=z,
                                               h=ET.impl.encode_path(rel(r.choice(hidden))))
         if line.startswith('@IGNORE-MANIFEST'):
             ks = [k for k, x in enumerate(lines) if x.startswith('MANIFEST ') and len(x.split()) >= 2]
@@ -162,6 +166,9 @@ def gen_case(r):
     sub = r.choice(dirs) if dirs else ''
     keep = r.random() < 0.4
     hashes, sort, wm, fmt, prof, sign, keyid, vpgp = c.opts
+    if kind != 'verify' and r.random() < 0.1:
+        # requested hash names that are not Manifest hash names (some of them known to hashlib): UnsupportedHash, exit 1
+        hashes = r.choice([['SHA1', 'SHAKE_128'], ['shake_256'], ['SHA384'], ['sha1'], ['FOO'], ['SHA512', 'SM3'], ['MD5', 'md5']])
     def ignored_by_root(target):
         ino = c.tree.lookup('Manifest')
         ents = OX.parse('Manifest', c.tree.nodes[ino]['data']) if ino is not None and c.tree.nodes[ino]['k'] == 'f' else None
